@@ -137,7 +137,9 @@ func init() {
 		nstates := 0
 		maxStates := 80
 		if c.Thorough() {
-			maxStates = 100000
+			// (bounded: every state costs ~130 cases with their whole paths observed; 100000 states made
+			// the comparison outgrow the machine's memory)
+			maxStates = 1500
 		}
 		salt := 0
 		for len(queue) > 0 && nstates < maxStates {
